@@ -40,6 +40,8 @@ def parseOp (fs : List String) : Option Op :=
   | ["rootcreate", now] => do pure (.rootCreate (← now.toInt?))
   | ["reg", owner, ttl, max, ren, now] => do
     pure (.reg (← owner.toNat?) (← ttl.toInt?) (← max.toInt?) (← b? ren) (← now.toInt?))
+  | ["batchreg", ttl, max, ren, now] => do
+    pure (.batchReg (← ttl.toInt?) (← max.toInt?) (← b? ren) (← now.toInt?))
   | ["renew", id, incr, now] => do pure (.renew (← id.toNat?) (← incr.toInt?) (← now.toInt?))
   | ["tokrenew", id, incr, now] => do pure (.tokRenew (← id.toNat?) (← incr.toInt?) (← now.toInt?))
   | ["revoke", id, sync, now] => do pure (.revoke (← id.toNat?) (← b? sync) (← now.toInt?))
